@@ -1004,38 +1004,42 @@ theorem cons_stop (s : State) (k : Nat) (hc : Cons s) : Cons (stopInst s k) := b
   intro i hi τ hτ
   exact hc i (List.mem_filter.mp hi).1 τ (lookupStored_drop _ k _ τ hτ)
 
-theorem saveState_insts (s : State) : (saveState s).1.insts = s.insts := by
-  unfold saveState; split <;> rfl
+theorem saveState_insts (s : State) : (saveState s).1.insts = s.insts := rfl
+
+/-- save-state always succeeds -/
+theorem saveState_ok (s : State) : (saveState s).2 = true := rfl
+
+/-- save-state externalises exactly the live instances that have a session, with their timeout -/
+theorem saveState_stores (s : State) (i : Inst) (hi : i ∈ s.insts) (hs : i.sess = true) :
+    (i.id, i.timeout) ∈ (saveState s).1.stored := by
+  simp only [saveState, List.mem_append, List.mem_reverse, List.mem_map, List.mem_filter]
+  exact Or.inl ⟨i, ⟨hi, hs⟩, rfl⟩
 
 theorem saveState_stored (s : State) (k τ : Nat) (h : lookupStored (saveState s).1.stored k = some τ) :
-    (∃ i ∈ s.insts, i.id = k ∧ i.timeout = τ) ∨ lookupStored s.stored k = some τ := by
+    (∃ i ∈ s.insts, i.sess = true ∧ i.id = k ∧ i.timeout = τ) ∨ lookupStored s.stored k = some τ := by
   unfold saveState at h
-  split at h
-  · rcases lookupStored_append _ _ k τ h with h1 | h1
-    · left
-      simp only [List.mem_reverse, List.mem_map, Prod.mk.injEq] at h1
-      obtain ⟨i, hi, h2, h3⟩ := h1
-      exact ⟨i, hi, h2, h3⟩
-    · right; exact h1
-  · right; exact h
+  rcases lookupStored_append _ _ k τ h with h1 | h1
+  · left
+    simp only [List.mem_reverse, List.mem_map, List.mem_filter, Prod.mk.injEq] at h1
+    obtain ⟨i, ⟨hi, hs⟩, h2, h3⟩ := h1
+    exact ⟨i, hi, hs, h2, h3⟩
+  · right; exact h1
 
 theorem inv_save (s : State) (t : Nat) (h : Inv s t) : Inv (saveState s).1 t := by
   refine ⟨by rw [saveState_insts]; exact h.nodup, ?_, by rw [saveState_insts]; exact h.lastLe, ?_⟩
   · intro i hi
     rw [saveState_insts] at hi
-    have : (saveState s).1.next = s.next := by unfold saveState; split <;> rfl
-    rw [this]; exact h.bound i hi
+    exact h.bound i hi
   · intro k τ hk
-    have : (saveState s).1.next = s.next := by unfold saveState; split <;> rfl
-    rw [this]
-    rcases saveState_stored s k τ hk with ⟨i, hi, h1, _⟩ | h1
+    show k < s.next
+    rcases saveState_stored s k τ hk with ⟨i, hi, _, h1, _⟩ | h1
     · rw [← h1]; exact h.bound i hi
     · exact h.storedBound k τ h1
 
 theorem cons_save (s : State) (t : Nat) (hinv : Inv s t) (hc : Cons s) : Cons (saveState s).1 := by
   intro j hj τ hτ
   rw [saveState_insts] at hj
-  rcases saveState_stored s j.id τ hτ with ⟨i, hi, h1, h2⟩ | h1
+  rcases saveState_stored s j.id τ hτ with ⟨i, hi, _, h1, h2⟩ | h1
   · rw [← h2, eq_of_nodup_id _ hinv.nodup i j hi hj h1]
   · exact hc j hj τ h1
 
@@ -1214,7 +1218,7 @@ theorem alive_not_destroyed2 (c : Cfg) (s : State) (t now : Nat) (ev : Ev2) (hin
   cases ev with
   | old e => exact alive_not_destroyed c s t now e hinv.1 ht k τ l h hl hn
   | stop j => rfl
-  | saveState => simp only [step2, saveState]; split <;> rfl
+  | saveState => rfl
   | loadState => simp only [step2]; rw [(load_props s t now hinv.1 ht hinv.2).2.2]
 
 theorem C17_never_early2 (c : Cfg) (s : State) (t now : Nat) (ev : Ev2) (hinv : Inv2 s t) (ht : t ≤ now)
@@ -1404,9 +1408,7 @@ theorem bal_step2 (c : Cfg) (s : State) (now : Nat) (ev : Ev2) (h : Bal s) : Bal
   | stop j => exact bal_stop s j h
   | saveState =>
     intro k
-    have := h k
-    simp only [step2, saveState]
-    split <;> exact this
+    exact h k
   | loadState => exact bal_load_fold now _ s h
 
 theorem bal_run2 (c : Cfg) (evs : List (Nat × Ev2)) : ∀ s, Bal s → Bal (run2 c s evs) := by
